@@ -19,7 +19,7 @@ type Options struct {
 	timeout, workers, nsolvers                                      int
 	funcs                                                           string
 	verbose, names                                                  bool
-	only                                                            string
+	only, lock                                                      string
 	levelNote                                                       string
 }
 
@@ -46,6 +46,7 @@ func main() {
 	fs.StringVar(&o.funcs, "funcs", "", "comma-separated pkg.func[label] list (instead of -prop)")
 	fs.BoolVar(&o.verbose, "v", false, "verbose")
 	fs.BoolVar(&o.names, "names", false, "list every obligation")
+	fs.StringVar(&o.lock, "lock", "/verif/contracts.lock.json", "name lock file (see lock.go)")
 	fs.StringVar(&o.only, "only", "", "development: discharge only obligations whose name contains this substring")
 	fs.Parse(os.Args[2:])
 	if o.timeout == 0 {
@@ -79,6 +80,16 @@ func main() {
 			for _, l := range li.Loops {
 				fmt.Printf("loop %d: head block %d, %d blocks\n", l.Ordinal, l.Head.Index, len(l.Blocks))
 			}
+		}
+	case "lock":
+		w, err := loadWorld(o.repo, o.stdlib, []string{"./..."})
+		if err != nil {
+			fmt.Fprintln(os.Stderr, err)
+			os.Exit(2)
+		}
+		if err := w.writeLock(o.lock); err != nil {
+			fmt.Fprintln(os.Stderr, err)
+			os.Exit(2)
 		}
 	case "layouts":
 		w, err := loadWorld(o.repo, o.stdlib, []string{"./..."})
@@ -181,6 +192,7 @@ func runCheck(o *Options) int {
 		// a load failure (e.g. contract drift) is reported as a violation without a failing input
 		return reportLoadFailure(o, err, start)
 	}
+	w.loadLock(o.lock)
 	var targets []target
 	lemmaSet := map[string]bool{}
 	var examples []*Example
@@ -706,6 +718,9 @@ func report(o *Options, w *World, results []*FuncResult, jobs []*job, start time
 		assumptions = append(assumptions, "callee without contract treated as arbitrary (havoc): "+t)
 	}
 	for _, t := range keys(notes) {
+		assumptions = append(assumptions, t)
+	}
+	for _, t := range keys(w.lockNotes) {
 		assumptions = append(assumptions, t)
 	}
 	cov := map[string]interface{}{
